@@ -22,6 +22,9 @@ Observation point: `ModeWrapper(<stack with seeded sample wrappers>, mode)[i]`  
                 "<a>", "<b>", "<b> <a>", with index is bit-identical to the item in the fused mode "<a> <b>"   -> form-dependent:<wrapper>
                 once per run / shard: the reference tables of one stack per wrapper family recomputed in two other
                 interpreters (PYTHONHASHSEED=1 / 2) equal the table of the checking interpreter      -> interpreter-dependent:<wrapper>
+                ... and equal the values the checking interpreter returns after other seeded wrappers of the same classes
+                (other seeds) served the same indices first, tables taken in the opposite order  -> instance-history-dependent:<wrapper>
+                decision probes: a wrapper's own fair random decision recorded in ctx is not constant over 32 indices -> same-decisions:<wrapper>
                 an in-domain construction / request raising                                               -> *-crash / *-refused
 
 A violating stack is reduced to the seeded layer (and, inside it, to the smallest sub-tree of its transform) that still
@@ -78,6 +81,13 @@ ASSUMPTIONS = [
     "whose observable outputs are discrete after rounding it is recorded as evidence (index-sensitive tables), never judged",
     "draw probes: two independent streams share one 53-bit draw prefix with probability < (10*18)^2 * 2^-53 < 4e-12 per case; a verdict needs "
     "two shared values (< 1e-22)",
+    "decision probes: MUGSMultiViewWrapper records its weak/strong choice for the global student views in ctx['is_weak_global_aug'] "
+    "(probability 1/2 per index, documented in its source as rng.random() < 0.5); over a window of 32 indices served by 32 different "
+    "per-index streams the vector is constant with probability 2^-31 < 5e-10 per case; if the key is absent the clause is not judged "
+    "(counted as unobservable). The weak/strong choice of the local crops is not recorded anywhere and is not judged",
+    "cross-interpreter / instance-history clause: the fresh child interpreters process the chosen specs in one start each (the first "
+    "stack of every wrapper family is the first instance of its classes there); the checking interpreter computes the same tables in "
+    "the opposite order after wrappers with seeds + 1000 served the same indices",
     "seed sensitivity (another seed gives another table) is evidence, never a verdict",
     "which ModeWrapper mode an item is requested through is not part of (data, config, seed, i): the same item of the same index must "
     "agree across modes (ctx is not requested in this comparison)",
@@ -86,7 +96,7 @@ ASSUMPTIONS = [
 ]
 MONITORS = ["reference_tables", "history_observations_compared", "second_instance_observations_compared", "request_form_observations_compared",
             "global_rng_perturbations", "loader_runs", "loader_runs_in_worker_processes", "loader_samples_compared",
-            "stream_pairs_compared", "draw_windows_compared", "mix_weights_decoded", "index_sensitive_tables", "request_mode_items_compared", "interpreter_tables_compared"]
+            "stream_pairs_compared", "draw_windows_compared", "decision_windows_checked", "mix_weights_decoded", "index_sensitive_tables", "request_mode_items_compared", "interpreter_tables_compared", "foreign_seed_wrappers_served_first"]
 
 STEP_LIMIT = 3_000_000
 WITNESSES_PER_KEY = 4
@@ -166,7 +176,8 @@ def gen_cases(run):
     n_common = run.n(8, 16 * 30)
     n_fused = run.n(10, 16 * 60)
     n_draws = run.n(16, 16 * 100)
-    plan = ["probe"] * n_probe + ["stack"] * n_stack + ["common"] * n_common + ["fused"] * n_fused + ["draws"] * n_draws
+    n_dec = run.n(2, 16 * 4)
+    plan = ["probe"] * n_probe + ["stack"] * n_stack + ["common"] * n_common + ["fused"] * n_fused + ["draws"] * n_draws + ["decisions"] * n_dec
     rng.shuffle(plan)
     loader_share = 0.3
     zero = {}
@@ -191,6 +202,8 @@ def gen_cases(run):
             st = S.gen_fused(rng, flags)
         elif kind == "draws":
             st = S.gen_draw_probe(rng)
+        elif kind == "decisions":
+            st = S.gen_decision_probe(rng)
         else:
             st = S.gen_stack(rng, flags, family=rng.choice(["xtw", "xtw", "xtw", "xtw2", "mv", "mv", "mix", "semseg", "semseg"]))
         zero_quota(st)
@@ -249,6 +262,10 @@ def _history(spec, m):
         seq_b = seq_b + [seq_b[0]] + perm[:2]
     a, b = sorted((r.randrange(m + 1), r.randrange(m + 1)))
     forms = [("list", [perm[0], perm[-1], perm[0]]), ("slice", [a, b, r.choice([1, 1, 2])])]
+    cap = spec.get("hist_cap")
+    if cap:  # long index windows over expensive pipelines: a short history (the window is there for the across-index clause)
+        seq_a, pre_b, seq_b = seq_a[:cap], pre_b[:1], seq_b[:cap]
+        forms = [("list", [perm[0], perm[-1], perm[0]])]
     return seq_a, pre_b, seq_b, forms
 
 
@@ -472,6 +489,28 @@ def _judge_streams(spec, probe, m, raw, R, bump):
     pos = probe["layer"]
     seen = [S.seen_index(spec["n"], layers, pos, j) for j in range(m)]
     wname = S.wrapper_class_name(layers[pos])
+    if probe["rule"] == "decisions":
+        # the wrapper's own random decision recorded in ctx (probability strictly between 0 and 1) over a window of indices
+        key = probe["ctx_key"]
+        vec = []
+        for j in range(m):
+            out = raw[j]
+            ctx = out[1] if isinstance(out, tuple) and len(out) == 2 and isinstance(out[1], dict) else None
+            if ctx is None or key not in ctx:
+                bump("decision_windows_unobservable")
+                return None
+            vec.append(bool(ctx[key]))
+        distinct = len(set(seen))
+        if distinct < probe["window"]:
+            return None
+        bump("decision_windows_checked")
+        bump(f"decision_values_seen[{key}]", len(set(vec)))
+        if len(set(vec)) == 1:
+            return {"kind": "same-decisions", "layer": pos,
+                    "what": f"{wname}(seed={layers[pos]['seed']}): ctx[{key!r}] is {vec[0]} for all {m} indices of the window; a fair decision drawn from a "
+                            f"stream of its own per index is constant over {distinct} indices with probability 2^-{distinct - 1} - the decisions of "
+                            f"different indices come from the same stream"}
+        return None
     if probe["rule"] == "draws":
         keys = [S.draw_keys(raw[j]) for j in range(m)]
         for j in range(m):
@@ -603,6 +642,8 @@ def _reduce(spec, finding):
     loader_only = finding.get("obs") == "loader"
     if finding["kind"] == "form-dependent":
         return [(spec, finding, S.wrapper_family(layers[finding["layer"]]))]
+    if finding["kind"] == "same-decisions":
+        return [(spec, finding, S.wrapper_class_name(layers[finding["layer"]]))]
     if finding["kind"] == "streams-overlap":
         return [(spec, finding, S.wrapper_family(layers[finding["layer"]]))]
     if finding["kind"] == "same-stream":
@@ -735,12 +776,14 @@ def _table_digests_here(spec):
 
 
 def _run_xproc(run, case):
+    """reference tables of (config, seed, i) from fresh child interpreters vs the values of the checking interpreter obtained
+    *after* other seeded wrappers (same classes, other seeds) served the same indices, in another order"""
     specs = case["xproc"]
-    here = []
-    for sp in specs:
-        col = _Collector()
-        ok, d = call_real(col, lambda: _table_digests_here(sp), crash_key="getitem-crash", what="reference table in the checking interpreter")
-        here.append(d if ok else None)  # crashes in the main interpreter are the business of the ordinary cases
+
+    def fam_set(sp):
+        return sorted({S.wrapper_family(l) for l in sp["layers"] if l["w"] in S.SEEDED})
+
+    # ---- children first started (they run while the parent works): each is a fresh interpreter, specs in the given order
     tmp = tempfile.mkdtemp(prefix="kdv_c08x_")
     spec_path = os.path.join(tmp, "specs.json")
     with open(spec_path, "w") as fh:
@@ -751,6 +794,20 @@ def _run_xproc(run, case):
         outp = os.path.join(tmp, f"out{hs}.json")
         procs.append((hs, outp, subprocess.Popen([sys.executable, "-m", "kdv.h08_child", spec_path, outp], cwd=str(core.VERIF), env=env,
                                                   stdout=subprocess.PIPE, stderr=subprocess.STDOUT, text=True)))
+    # ---- parent: other wrappers of the same classes with OTHER seeds serve every index first ...
+    for sp in specs:
+        other = dict(sp, layers=[dict(l, seed=l["seed"] + 1000) if l.get("seed") is not None else l for l in sp["layers"]])
+        try:
+            S.table_digests(other)
+            run.count("foreign_seed_wrappers_served_first")
+        except Exception:  # noqa: BLE001 - crashes are the business of the ordinary cases
+            pass
+    # ---- ... then the tables, in the opposite order of the children
+    here = [None] * len(specs)
+    for k in range(len(specs) - 1, -1, -1):
+        col = _Collector()
+        ok, d = call_real(col, lambda: _table_digests_here(specs[k]), crash_key="getitem-crash", what="reference table in the checking interpreter")
+        here[k] = d if ok else None
     results = {}
     try:
         for hs, outp, p in procs:
@@ -766,39 +823,50 @@ def _run_xproc(run, case):
         import shutil
         shutil.rmtree(tmp, ignore_errors=True)
     run.count("child_interpreters", len(results))
-    def fam_set(sp):
-        return sorted({S.wrapper_family(l) for l in sp["layers"] if l["w"] in S.SEEDED})
+    hss = list(results)
 
     # stacks with one seeded family first: a stack of several families is named after a member family that already differs alone
     order = sorted(range(len(specs)), key=lambda k: len(fam_set(specs[k])))
-    differing = set()
+    differing = {"interpreter-dependent": set(), "instance-history-dependent": set()}
     for k in order:
         sp = specs[k]
         if here[k] is None:
             continue
         fs = fam_set(sp)
-        fams = "+".join(fs)
-        if len(fs) > 1 and differing & set(fs):
-            fams = sorted(differing & set(fs))[0]
-        run.cover("interpreter", fams, "+".join(l["w"] for l in sp["layers"]))
-        for hs, res in results.items():
-            t = res["tables"][k]
-            one = {"xproc": [sp], "hashseeds": [hs]}
-            if "error" in t:
-                run.violation(f"interpreter-crash:{t['error'].split(':')[0]}:{fams}",
-                              f"{_brief(sp)}: the table computes in the checking interpreter but raises in an interpreter started with PYTHONHASHSEED={hs}: {t['error']}\n{t.get('tb', '')}", one)
-                continue
-            run.count("interpreter_tables_compared")
-            run.count("interpreter_samples_compared", len(here[k]))
-            if t["digests"] != here[k]:
-                if len(fs) == 1:
-                    differing.add(fs[0])
-                bad = [i for i, (a, b) in enumerate(zip(here[k], t["digests"])) if a != b]
-                run.violation(f"interpreter-dependent:{fams}",
-                              f"{fams}: {_brief(sp)} mode={sp['mode']!r}: the reference table computed in an interpreter started with PYTHONHASHSEED={hs} differs from the "
-                              f"table of the checking interpreter (PYTHONHASHSEED={os.environ.get('PYTHONHASHSEED')}) at indices {bad[:8]} - sample i depends on "
-                              f"interpreter-private state (it would differ between spawned workers / ranks / runs)", one)
-                break
+        run.cover("interpreter", "+".join(fs), "+".join(l["w"] for l in sp["layers"]))
+        tabs = {hs: results[hs]["tables"][k] for hs in hss}
+        one = {"xproc": [sp], "hashseeds": hss}
+
+        def name(kind):
+            d = differing[kind] & set(fs)
+            return sorted(d)[0] if len(fs) > 1 and d else "+".join(fs)
+
+        err = [(hs, t) for hs, t in tabs.items() if "error" in t]
+        if err:
+            hs, t = err[0]
+            run.violation(f"interpreter-crash:{t['error'].split(':')[0]}:{'+'.join(fs)}",
+                          f"{_brief(sp)}: the table computes in the checking interpreter but raises in a fresh interpreter (PYTHONHASHSEED={hs}): {t['error']}\n{t.get('tb', '')}", one)
+            continue
+        run.count("interpreter_tables_compared", len(tabs))
+        run.count("interpreter_samples_compared", len(here[k]) * len(tabs))
+        ref = tabs[hss[0]]["digests"]
+        disagree = [hs for hs in hss[1:] if tabs[hs]["digests"] != ref]
+        if disagree:
+            if len(fs) == 1:
+                differing["interpreter-dependent"].add(fs[0])
+            bad = [i for i, (a, b) in enumerate(zip(ref, tabs[disagree[0]]["digests"])) if a != b]
+            run.violation(f"interpreter-dependent:{name('interpreter-dependent')}",
+                          f"{_brief(sp)} mode={sp['mode']!r}: the reference tables computed in two fresh interpreters started with PYTHONHASHSEED={hss[0]} and "
+                          f"{disagree[0]} differ at indices {bad[:8]} - sample i depends on interpreter-private state (it would differ between spawned workers / ranks / runs)", one)
+            continue
+        if here[k] != ref:
+            if len(fs) == 1:
+                differing["instance-history-dependent"].add(fs[0])
+            bad = [i for i, (a, b) in enumerate(zip(ref, here[k])) if a != b]
+            run.violation(f"instance-history-dependent:{name('instance-history-dependent')}",
+                          f"{_brief(sp)} mode={sp['mode']!r}: the values of (config, seed, i) computed in fresh interpreters (agreeing under PYTHONHASHSEED={hss}) differ at indices "
+                          f"{bad[:8]} from the values the checking interpreter returns after other seeded wrappers of the same classes (seeds + 1000) served the same "
+                          f"indices first - sample i depends on which other wrapper instances exist / were asked before, not only on (data, config, seed, i)", one)
 
 
 def run_case(run, spec):
